@@ -6,6 +6,7 @@ import (
 	"os"
 	"os/exec"
 	"path/filepath"
+	"strings"
 	"sync"
 	"testing"
 
@@ -21,6 +22,10 @@ type c06Case struct {
 	// Before lists inputs validated in this process before the subject: another profile (and its data) that binds
 	// the prefix name the subject uses to another namespace. A fresh process has no such history.
 	Before [][2]string `json:"before,omitempty"`
+	// BeforeData lists documents validated with the subject's profile before the subject's data, whatever they
+	// yield: a document the reader abandons early (syntax error near the start of a long text) or reads only the
+	// first value of (long trailing content). What the reader did not consume must not reach the next call.
+	BeforeData []string `json:"before_data,omitempty"`
 }
 
 func genC06(t *rapid.T) c06Case {
@@ -61,7 +66,27 @@ func genC06(t *rapid.T) c06Case {
 			}
 		}
 	}
+	if rapid.IntRange(0, 3).Draw(t, "abandonedInput") == 0 {
+		c.BeforeData = append(c.BeforeData, genAbandonedInput(t, c.Data))
+		c.Procs = true
+	}
 	return c
+}
+
+// genAbandonedInput makes a long text of which a JSON reader consumes only a part: a document with a syntax error
+// near its start, or a readable document followed by kilobytes of something else.
+func genAbandonedInput(t *rapid.T, valid string) string {
+	tailUnit := pick(t, []string{"{\"@id\":\"http://ex.org/n/tail\",\"@type\":[\"http://ex.org/v#Test\"]}\n", "# log line after the document\n", " ]]]]}}}} ", "0123456789abcdef"}, "tailUnit")
+	tail := strings.Repeat(tailUnit, rapid.SampledFrom([]int{40, 400, 4000}).Draw(t, "tailUnits"))
+	switch rapid.IntRange(0, 2).Draw(t, "abandonKind") {
+	case 0: // syntax error within the first bytes of a long text
+		return "[{\"@id\": !oops " + tail
+	case 1: // the first value is complete; a lot follows
+		return valid + "\n" + tail
+	default: // truncated document padded with a long string
+		cut := len(valid) / 2
+		return valid[:cut] + "\u0000" + tail
+	}
 }
 
 // TestHelperValidate is the body of the fresh-process runs: it validates the
@@ -135,6 +160,11 @@ func decideC06(c c06Case) ev.Verdict {
 			return ev.Violation("c06-call-failed:"+classifyErr(r), "validation of the earlier profile failed: %s\n%s", trunc(r.errString(), 400), b[0])
 		}
 	}
+	for _, d := range c.BeforeData {
+		if r := validateFixed(c.Profile, d); r.Panic != "" {
+			return ev.Violation("c06-panic", "panic on an earlier document: %s", r.Panic)
+		}
+	}
 	first := validateFixed(c.Profile, c.Data)
 	if first.failed() {
 		return ev.Violation("c06-call-failed:"+classifyErr(first), "validation failed: %s\n%s", trunc(first.errString(), 400), c.Profile)
@@ -166,6 +196,9 @@ func decideC06(c c06Case) ev.Verdict {
 	labels := []string{"in-process"}
 	if len(c.Before) > 0 {
 		labels = append(labels, "after-a-profile-rebinding-the-built-in-prefix")
+	}
+	if len(c.BeforeData) > 0 {
+		labels = append(labels, "after-a-long-input-the-reader-abandoned")
 	}
 	if c.Procs {
 		for i := 0; i < 3; i++ {
